@@ -612,16 +612,24 @@ def check_flags_initialised(ck, P, rid):
                         r.k == "DeclRefExpr" and r.did == mv.did for a in X.callee_args(x) for r in a.walk()):
                     inits.add(x.id)
             pubs = []
+            records = []        # pushes into the sender's own history: nobody reads the flags there before the function returns
             for x in f.walk():
                 if x.k == "CallExpr" and x.callee in ("msg_queue_insert", "common_msg_process") and any(r.k == "DeclRefExpr" and r.did == mv.did for a in X.callee_args(x) for r in a.walk()):
                     pubs.append(x)
                 if x.k == "StmtExpr" and x.macros and x.macros[0] in ("heap_insert", "array_push") and any(r.k == "DeclRefExpr" and r.did == mv.did for r in x.walk()):
                     first = next((y for y in x.walk() if y.id in g.pos), None)
                     if first is not None:
-                        pubs.append(first)
-            if not pubs:
+                        (pubs if x.macros[0] == "heap_insert" else records).append(first)
+            if not pubs and not records:
                 continue
-            w = g.escapes(g.position(c), inits, goal="none", goal_ids={p.id for p in pubs})
+            w = g.escapes(g.position(c), inits, goal="none", goal_ids={p.id for p in pubs}) if pubs else None
+            if not w:
+                for r_ in records:
+                    w1 = g.escapes(g.position(c), inits, goal="none", goal_ids={r_.id})
+                    w2 = g.escapes(g.position(r_), inits, goal="exit") if w1 else None
+                    if w1 and w2:
+                        w = w1 + w2
+                        break
             if w:
                 ck.violated(rid, inst, c.where, "a message from %s() is published (%s) without its flag word having been written: the buffer is recycled, so the event order and the cancellation protocol read a previous message's flags" % (
                     c.callee, witness_text(f, w)), cfg)
